@@ -28,7 +28,10 @@ import (
 	"verifharness/core"
 )
 
-const verifDir = "/verif"
+// verifDir is /verif for registered commands; check.sh exports VERIF_DIR as
+// its own directory so that a private copy of the framework can be exercised
+// elsewhere during development.
+var verifDir = "/verif"
 
 // repoDir is /repo for every registered command. VERIF_REPO points the build
 // at a scratch copy of the repository instead (self-validation against
@@ -52,6 +55,9 @@ type propInfo struct {
 
 func main() {
 	args := os.Args[1:]
+	if d := os.Getenv("VERIF_DIR"); d != "" {
+		verifDir = d
+	}
 	if r := os.Getenv("VERIF_REPO"); r != "" {
 		repoDir = r
 	}
